@@ -337,7 +337,7 @@ func c07Units(thorough bool) []*explore.Unit {
 		if p.event == "cancel" || p.event == "close" {
 			b = 1
 			// short scripts: also the second deviation (e.g. a ready select case not taken first)
-			if n := len(strings.Join(p.scripts, "")); p.event == "cancel" && n >= 1 && n <= 2 && len(p.keys) == 2 && p.layout == "spread" && p.evAfter >= 2 {
+			if n := len(strings.Join(p.scripts, "")); p.event == "cancel" && n == 1 && len(p.keys) == 2 && p.layout == "spread" && p.evAfter >= 2 {
 				b = 2
 			}
 		}
